@@ -78,7 +78,7 @@ var symTable = map[string]sym{}
 
 func init() {
 	add := func(s sym) { symTable[s.text] = s }
-	for _, t := range []string{"a", "b", "c", "x=1", "x=", "1", "é", "日本", "ü=1", "-1", "1a", "f"} {
+	for _, t := range []string{"a", "b", "c", "x", "x=1", "x=", "1", "é", "日本", "ü=1", "-1", "1a", "f"} {
 		add(word(t))
 	}
 	for t := range reservedWords {
@@ -176,9 +176,56 @@ type rendered struct {
 	start []int // byte offset of each symbol
 }
 
+// glueOK reports whether the blank between two adjacent symbols can be
+// dropped without changing how the text splits into tokens (XCU 2.3): one
+// of the two must be an operator, an all-digit word must not touch a
+// redirection operator (it would become an IO_NUMBER), operators must not
+// merge into longer ones, a comment needs its blank.
+func glueOK(a, b sym) bool {
+	if a.kind == kNL || b.kind == kNL || a.kind == kBroken || b.kind == kBroken || b.kind == kComment || a.kind == kComment {
+		return false
+	}
+	opLike := func(s sym) bool { return s.kind == kOp }
+	aOp := opLike(a) || a.kind == kArith
+	bOp := opLike(b) || b.kind == kHere && b.num == "" || b.kind == kArith
+	if !aOp && !bOp {
+		return false // two words (or word + IO number) would merge
+	}
+	if a.kind == kIONum || a.kind == kHere {
+		return false // "2>" + word is already glued inside the symbol; "<<E" ends in a word
+	}
+	if b.kind == kIONum || b.kind == kHere && b.num != "" {
+		return opLike(a) && a.op != "<" && a.op != ">" && false
+	}
+	if a.kind == kWord && (b.kind == kOp && strings.ContainsAny(b.op[:1], "<>") || b.kind == kHere) {
+		digits := true
+		for _, c := range a.text {
+			if c < '0' || c > '9' {
+				digits = false
+			}
+		}
+		if digits {
+			return false
+		}
+	}
+	if aOp && bOp {
+		// never let two operators touch: "& &", "; ;", "( (", "> >", "< &", ") )" … could merge
+		return false
+	}
+	if a.kind == kArith || b.kind == kArith {
+		return a.kind == kWord || b.kind == kWord || opLike(a) && a.op != "(" && a.op != ")" && false
+	}
+	return true
+}
+
+// renderTight is render with every droppable blank dropped.
+func renderTight(ss []sym) rendered { return renderLayout(ss, true) }
+
 // render writes the symbols with one blank between them (canonical layout);
 // here-document bodies of pending operators follow the next newline symbol.
-func render(ss []sym) rendered {
+func render(ss []sym) rendered { return renderLayout(ss, false) }
+
+func renderLayout(ss []sym, tight bool) rendered {
 	var b strings.Builder
 	r := rendered{start: make([]int, len(ss))}
 	var pending []sym
@@ -198,7 +245,7 @@ func render(ss []sym) rendered {
 			pending = nil
 			continue
 		}
-		if i > 0 && ss[i-1].kind != kNL {
+		if i > 0 && ss[i-1].kind != kNL && !(tight && !comment && glueOK(ss[i-1], s)) {
 			b.WriteByte(' ')
 		}
 		r.start[i] = b.Len()
